@@ -40,6 +40,7 @@ structure Doc where
   overflowed : Bool := false
   root : VData := .null
   strOverhead : Nat := 15           -- sizeForLength(n) = n + strOverhead
+  maxStrLen : Nat := 65535          -- StringNode::maxLength = 2^(8*ARDUINOJSON_STRING_LENGTH_SIZE) - 1
 
 instance : Inhabited Doc := ⟨{ g := ⟨256, 4, 4, 16, 16⟩, alloc := 0, pl := PL.init ⟨256, 4, 4, 16, 16⟩ }⟩
 
@@ -71,6 +72,8 @@ def Doc.saveString (d : Doc) (s : List Byte) : Option Nat × Doc :=
   match d.strings.find? (·.bytes == s) with
   | some n => (some n.id, { d with strings := d.strings.map (fun x => if x.id == n.id then { x with refs := x.refs + 1 } else x) })
   | none =>
+    -- StringNode::create refuses a length beyond maxLength without calling the allocator; ResourceManager::saveString sets the flag
+    if s.length > d.maxStrLen then (none, { d with overflowed := true }) else
     let (ok, pl) := d.pl.alloc (s.length + d.strOverhead)
     if !ok then (none, { d with pl := pl, overflowed := true })
     else (some d.nextNode, { d with pl := pl, strings := ⟨d.nextNode, s, 1⟩ :: d.strings, nextNode := d.nextNode + 1 })
